@@ -23,11 +23,12 @@ class VBool(Val):
     """val: True / False / None (unknown); pred: predicate AST or None
     pred forms: ('cmp', op, FormA, FormB) op in lt le gt ge eq ne | ('not', p) | ('and', p, q) | ('or', p, q)
                 ('fcls', VFloat, cls) | ('feq0', VFloat)"""
-    __slots__ = ('val', 'pred')
+    __slots__ = ('val', 'pred', 'sym')
 
-    def __init__(self, val, pred=None):
+    def __init__(self, val, pred=None, sym=None):
         self.val = val
         self.pred = pred
+        self.sym = sym      # 0/1-valued symbol shared by all copies of an undecided bool
 
     def __repr__(self):
         return f"bool({self.val})"
@@ -35,12 +36,13 @@ class VBool(Val):
 
 class VFloat(Val):
     """cls: frozenset subset of {'fin','inf','nan'}; expr: structural description (tuple AST)"""
-    __slots__ = ('cls', 'expr')
+    __slots__ = ('cls', 'expr', 'rng')
     ALL = frozenset(('fin', 'inf', 'nan'))
 
-    def __init__(self, cls=None, expr=None):
+    def __init__(self, cls=None, expr=None, rng=None):
         self.cls = VFloat.ALL if cls is None else cls
         self.expr = expr
+        self.rng = rng      # (lo, hi) python floats bounding the finite values, or None
 
     def __repr__(self):
         return f"f64{sorted(self.cls)}<{self.expr}>"
